@@ -204,8 +204,10 @@ impl LinkRelay<OutputHandle> {
 //@@ spec
     ensures
         *old(self) is Sender ==> r is Err && *final(self) == *old(self),                                     // [C15.relay.transfer-to-sender] a transfer addressed to a sending link is an error and has no effect
-        *old(self) is Receiver && r is Ok ==> final(self)->Receiver_tx.sent@ == old(self)->Receiver_tx.sent@.push(
+        *old(self) is Receiver && r is Ok && final(self)->Receiver_tx.failures@ == old(self)->Receiver_tx.failures@ ==> final(self)->Receiver_tx.sent@ == old(self)->Receiver_tx.sent@.push(
             LinkFrame::Transfer { input_handle: InputHandle(transfer.handle.0), performative: transfer, payload }),   // [C10.relay.forward] the frame is forwarded to the link unchanged (performative and payload) [C01.relay.forward]
+        *old(self) is Receiver ==> r is Ok,                                                                   // [C13.drop.in-flight-transfer-discarded] a transfer for a receiving link is never an error of the session: when the local endpoint is gone (the Receiver was dropped and its detach is on its way) a delivery that was still in flight is discarded -- it must not end the session (and, through it, the connection)
+        *old(self) is Receiver && final(self)->Receiver_tx.failures@ > old(self)->Receiver_tx.failures@ ==> r == Ok::<Option<(DeliveryNumber, DeliveryTag)>, LinkRelayError>(None),
         *old(self) is Receiver && r is Ok && r->Ok_0 is Some ==>
             transfer.delivery_id == Some(r->Ok_0->Some_0.0) && transfer.delivery_tag == Some(r->Ok_0->Some_0.1)
             && !(transfer.settled is Some && transfer.settled->Some_0) && old(self).rsm() == ReceiverSettleMode::Second && !old(self)->Receiver_more,   // [C02.relay.register-second] only the first frame of an unsettled delivery on a settle-second link is registered for the sender's settling disposition, under its own id and tag
@@ -391,13 +393,15 @@ impl<R, T, F, M> Link<R, T, F, M> {
         }),                                                                                                   // [C13.link.peer-detach] likewise for a non-closing detach
         !detach.closed && (old(self).local_state is Attached || old(self).local_state is DetachSent) ==>
             (match detach.error { Some(e) => r == Err::<(), DetachError>(DetachError::RemoteDetachedWithError(e)), None => r is Ok }),   // [C13.link.peer-detach-error]
+        r is Err && r->Err_0 is ClosedByRemote ==> old(self).local_state is DetachSent && detach.closed && detach.error is None,
+        detach.error is Some ==> r is Err && !(r->Err_0 is ClosedByRemote) && !(r->Err_0 is DetachedByRemote),       // [C13.link.peer-detach-error-reported] a detach of the peer that carries an error is never reported as a plain ClosedByRemote / DetachedByRemote (nor as success)
         final(self).input_handle == old(self).input_handle && final(self).name == old(self).name,
 //@@ end
 
 //@@ fn file=fe2o3-amqp/src/link/mod.rs impl=`impl<R, T, F, M> endpoint::LinkDetach for Link<R, T, F, M> where R: role::IntoRole + Send + Sync, T: Send, F: AsRef<LinkFlowState<R>> + Send + Sync, M: AsDeliveryState + Send + Sync,` name=send_detach
 //@@ param writer : &mut ChanSender<LinkFrame>
 //@@ subst `handle.into()` => `output_to_handle(handle)` rule=R16
-//@@ subst `|_v0|` => `|_v0: ChanSendError|` rule=optional-R5
+//@@ subst `.map_err(|_v0| __E1)` => `.map_err(|_v0: ChanSendError| -> (o: DetachError) ensures o is SessionStopped || o is IllegalState { __E1 })` rule=R18
 //@@ spec
     ensures
         ({
@@ -422,6 +426,7 @@ impl<R, T, F, M> Link<R, T, F, M> {
                     && (r is Err ==> final(writer).sent@ == old(writer).sent@ && final(writer).failures@ > old(writer).failures@)   // [C13.link.detach-fails-only-with-channel] with a handle and in a legal state the detach is queued unless the channel to the session is gone (this is the contract unit LINKDETACH relies on)
             &&& legal && old(self).output_handle is None ==> r is Err && final(writer).sent@ == old(writer).sent@   // [C13.link.no-frame-after-detach] without a handle nothing is sent
         }),
+        r is Err && r->Err_0 is ClosedByRemote ==> old(self).local_state is CloseReceived && !closed,
         final(self).input_handle == old(self).input_handle && final(self).name == old(self).name,
 //@@ end
 }
